@@ -5,9 +5,59 @@
 #include "model_run.cpp"
 #include "libparser.h"
 
+// A document that lives across calls: a call {"keep_doc": true, entry xml_buffer / xta, text} parses its model into `kept` (and stays there);
+// a call {"late_queries": [...], "query_builder": ...} parses queries against the kept document - what a client does that loads a model, parses other
+// things in between and then asks queries about the first model.
+static std::unique_ptr<Document> kept;
+
+static json keep_call(const json& call)
+{
+    json r;
+    kept = std::make_unique<Document>();
+    try {
+        const std::string text = call["text"];
+        int ret = call.value("entry", "xml_buffer") == "xta" ? (parse_XTA(text.c_str(), kept.get(), call.value("newxta", true)) ? 1 : 0)
+                                                            : parse_XML_buffer(text.c_str(), kept.get(), call.value("newxta", true));
+        r["main"] = json{{"outcome", "return"}, {"ret", ret}};
+    } catch (const std::exception& e) { r["main"] = json{{"outcome", "throw"}, {"exc", demangle(typeid(e).name())}, {"what", e.what()}}; }
+    json errs = json::array();
+    for (auto& e : kept->get_errors()) errs.push_back(vh::err_json(e));
+    r["kept_errors"] = errs;
+    return r;
+}
+
+static json late_call(const json& call)
+{
+    json r;
+    if (!kept) kept = std::make_unique<Document>();
+    json arr = json::array();
+    for (auto& qj : call["late_queries"]) {
+        kept->clear_errors();
+        json q;
+        try {
+            std::unique_ptr<PropertyBuilder> pb;
+            if (call.value("query_builder", "tiga") == "tiga") pb = std::make_unique<TigaPropertyBuilder>(*kept); else pb = std::make_unique<PropertyBuilder>(*kept);
+            q["ret"] = parseProperty(qj.get<std::string>().c_str(), pb.get());
+            json props = json::array();
+            for (auto& p : pb->getProperties()) props.push_back(json{{"type", (int)p.type}, {"s", vh::safe_str(p.intermediate)}});
+            q["props"] = props;
+            q["outcome"] = "return";
+        } catch (const std::exception& e) { q["outcome"] = "throw"; q["exc"] = demangle(typeid(e).name()); q["what"] = e.what(); }
+        json errs = json::array();
+        for (auto& e : kept->get_errors()) errs.push_back(vh::err_json(e));
+        q["errors"] = errs;
+        arr.push_back(q);
+    }
+    r["main"] = json{{"outcome", "return"}, {"ret", 0}};
+    r["queries"] = arr;
+    return r;
+}
+
 static json call_once(json call)
 {
     if (call.contains("set_position")) UTAP::tracker.position = call["set_position"].get<uint32_t>();
+    if (call.value("keep_doc", false)) return keep_call(call);
+    if (call.contains("late_queries")) return late_call(call);
     call["id"] = "c";
     json r;
     try { r = run_job(call); } catch (const std::exception& e) { r = json{{"outcome", "harness-error"}, {"what", e.what()}}; }
@@ -23,6 +73,7 @@ static json fresh(const json& call)
         close(fds[0]);
         json c = call;
         c.erase("set_position");    // a fresh process has parsed nothing before
+        if (c.contains("late_queries") && c.contains("kept_model")) { json k = c["kept_model"]; k.erase("set_position"); kept.reset(); keep_call(k); }   // ... but the model the queries are about
         json r = call_once(c);
         std::string s = r.dump(-1, ' ', false, json::error_handler_t::replace);
         size_t off = 0;
